@@ -832,8 +832,8 @@ def run(ck):
                        "optimality of the six-word set (Dubins' theorem), the float32 classification table's agreement with the minimum, "
                        "Reeds-Shepp optimality/symmetry and RS <= Dubins are checked differentially on the sampled inputs, not proved",
                        "Dubins / Reeds-Shepp distances exceeding getMaximumExtent (F14) are handled under C06"]
-    ck.lean_build(["OmplModel.Props.C14", DRIVER])
-    ck.audit()
+    ck.lean_build(LEAN_TARGETS)
+    ck.audit(roots=["Drv.Dubins"])
     if ck.tier == "thorough" and ck.lean_ok:
         ck.leanchecker(["OmplModel.Props.C14"])
     hbin = ck.build_harness("dubins", ["dubins.cpp"], link_ompl=True)
